@@ -7,28 +7,38 @@
 (* itself followed by its components depth-first as written in defflavor   *)
 (* (a flavor already present is skipped).  Sending a message runs whoppers *)
 (* outermost first, every :before daemon in precedence order, the first    *)
-(* primary in that order, every :after daemon in reverse order.  All of it *)
-(* is recomputed from the definitions, so the order in which the defining  *)
-(* forms were evaluated cannot matter in the reference - that is the       *)
-(* property.  TLC's interleavings of DefFlavor/DefMethod are the histories.*)
+(* primary in that order, every :after daemon in reverse order.  Instance  *)
+(* variable defaults, init keywords and gettable accessors are inherited   *)
+(* by the same order.  All of it is recomputed from the definitions, so    *)
+(* the order in which the defining forms were evaluated cannot matter in   *)
+(* the reference - that is the property.  TLC's interleavings of           *)
+(* DefFlavor/DefMethod are the histories.                                  *)
 (***************************************************************************)
 EXTENDS Integers, Sequences, FiniteSets, TLC, Json
-CONSTANTS F,         \* flavor names
+CONSTANTS NF,        \* number of flavor names
           MaxOps,    \* bound on the number of defining forms
-          MaxComps   \* bound on the number of components of a flavor
+          MaxComps,  \* bound on the number of components of a flavor
+          EmitFrom   \* histories shorter than this are not printed (random walks print the deep end only)
 Daemons == {"primary", "before", "after", "whopper"}
+AllF == <<"fa", "fb", "fc", "fd", "fe", "ff", "fg", "fh">>
+FSeq == SubSeq(AllF, 1, NF)
+F == {FSeq[i] : i \in 1..NF}
 VARIABLES comps,    \* comps[f] : Seq(F), or Undef while f is not defined
+          hasvar,   \* hasvar[f]: the flavor declares instance variable v (default = its own name; gettable, initable)
           dm,       \* set of <<flavor, daemon>> defined for the message :m
           hist, feat
 Undef == <<"undef">>
 Defined(f) == comps[f] # Undef
 Rng(s) == {s[i] : i \in 1..Len(s)}
 
-RECURSIVE Visit(_, _)
-RECURSIVE VisitAll(_, _)
-Visit(f, acc) == IF f \in Rng(acc) THEN acc ELSE VisitAll(comps[f], Append(acc, f))
-VisitAll(cs, acc) == IF cs = <<>> THEN acc ELSE VisitAll(Tail(cs), Visit(cs[1], acc))
-Prec(f) == Visit(f, <<>>)
+\* depth-first, components in the order written, a flavor already visited is skipped.  Written with an explicit
+\* stack: TLC passes operator arguments unevaluated, and a doubly recursive Visit/VisitAll re-evaluates the
+\* accumulated list at every use (exponential on dense component graphs - measured).
+RECURSIVE DFS(_, _)
+DFS(stack, acc) == IF stack = <<>> THEN acc
+                   ELSE IF Head(stack) \in Rng(acc) THEN DFS(Tail(stack), acc)
+                   ELSE DFS(comps[Head(stack)] \o Tail(stack), Append(acc, Head(stack)))
+Prec(f) == DFS(<<f>>, <<>>)
 
 Has(f, d) == <<f, d>> \in dm
 Sel(p, d) == SelectSeq(p, LAMBDA g : Has(g, d))
@@ -46,6 +56,8 @@ SendTrace(f) ==
   IN [i \in 1..Len(ws) |-> Tag(ws[i], "win")] \o inner \o [i \in 1..Len(ws) |-> Tag(Rev(ws)[i], "wout")]
 Handles(f) == \E g \in Rng(Prec(f)), d \in Daemons : Has(g, d)
 HasPrimary(f) == Sel(Prec(f), "primary") # <<>>
+\* the default of v comes from the first flavor in precedence order that declares it
+VarFrom(f) == LET vs == SelectSeq(Prec(f), LAMBDA g : hasvar[g]) IN IF vs = <<>> THEN "" ELSE vs[1]
 
 \* ---- feature tags (constructs with a known defect of the implementation) ------------------
 Inheritors(g) == {f \in F : Defined(f) /\ f # g /\ g \in Rng(Prec(f))}
@@ -53,27 +65,47 @@ Features(op, f, d) ==
   (IF op = "defmethod" /\ Inheritors(f) # {} THEN {"method-after-inheritor"} ELSE {})
   \cup (IF op = "defmethod" /\ d = "whopper" THEN {"whopper"} ELSE {})
 
-Init == comps = [f \in F |-> Undef] /\ dm = {} /\ hist = <<>> /\ feat = {}
+Init == comps = [f \in F |-> Undef] /\ hasvar = [f \in F |-> FALSE] /\ dm = {} /\ hist = <<>> /\ feat = {}
 SeqsUpTo(S, n) == UNION {[1..k -> S] : k \in 0..n}
 NoDup(s) == \A i, j \in 1..Len(s) : i # j => s[i] # s[j]
-DefFlavor(f, cs) == /\ ~Defined(f) /\ NoDup(cs)
-                    /\ \A i \in 1..Len(cs) : Defined(cs[i]) /\ cs[i] # f
-                    /\ comps' = [comps EXCEPT ![f] = cs] /\ dm' = dm
-                    /\ hist' = Append(hist, [op |-> "defflavor", f |-> f, cs |-> cs, d |-> ""])
-                    /\ feat' = feat
+DefFlavor(f, cs, hv) ==
+    /\ ~Defined(f) /\ NoDup(cs)
+    \* names are arbitrary: flavors are defined in the order fa, fb, ... (symmetry breaking, no loss of histories
+    \* up to renaming)
+    /\ f = FSeq[Cardinality({g \in F : Defined(g)}) + 1]
+    /\ \A i \in 1..Len(cs) : Defined(cs[i]) /\ cs[i] # f
+    /\ comps' = [comps EXCEPT ![f] = cs] /\ hasvar' = [hasvar EXCEPT ![f] = hv] /\ dm' = dm
+    /\ hist' = Append(hist, [op |-> "defflavor", f |-> f, cs |-> cs, d |-> IF hv THEN "var" ELSE ""])
+    /\ feat' = feat
 DefMethod(f, d) == /\ Defined(f) /\ ~Has(f, d)
-                   /\ dm' = dm \cup {<<f, d>>} /\ comps' = comps
+                   /\ dm' = dm \cup {<<f, d>>} /\ comps' = comps /\ hasvar' = hasvar
                    /\ hist' = Append(hist, [op |-> "defmethod", f |-> f, cs |-> <<>>, d |-> d])
                    /\ feat' = feat \cup Features("defmethod", f, d)
 Next == /\ Len(hist) < MaxOps
-        /\ \/ \E f \in F, cs \in SeqsUpTo(F, MaxComps) : DefFlavor(f, cs)
+        /\ \/ \E f \in F, cs \in SeqsUpTo(F, MaxComps), hv \in BOOLEAN : DefFlavor(f, cs, hv)
            \/ \E f \in F, d \in Daemons : DefMethod(f, d)
 \* what must be observed after the history, for every defined flavor
 Expect == [f \in {g \in F : Defined(g)} |->
-             [prec |-> Prec(f), handles |-> Handles(f), primary |-> HasPrimary(f), trace |-> SendTrace(f)]]
-Emit == PrintT(ToJson([hist |-> hist', expect |-> Expect', feat |-> feat']))
-View == <<comps, dm>>
-\* properties of the reference itself
+             [prec |-> Prec(f), handles |-> Handles(f), primary |-> HasPrimary(f), trace |-> SendTrace(f),
+              vfrom |-> VarFrom(f)]]
+Emit == Len(hist') < EmitFrom \/ PrintT(ToJson([hist |-> hist', expect |-> Expect', feat |-> feat']))
+\* random walks (tlc -simulate) evaluate an invariant on the states of the walk only; printing from there gives
+\* one line per walk step instead of one per enabled successor
+EmitState == Len(hist) < EmitFrom \/ PrintT(ToJson([hist |-> hist, expect |-> Expect, feat |-> feat]))
+View == <<comps, hasvar, dm>>
+\* ---- properties of the reference itself (design check) --------------------------------------
 PrecOK == \A f \in F : Defined(f) => /\ Prec(f)[1] = f /\ NoDup(Prec(f))
                                      /\ \A i \in 1..Len(comps[f]) : comps[f][i] \in Rng(Prec(f))
+\* components keep their written order unless the later one was already reached through an earlier (or the same) one
+Pos(p, g) == CHOOSE k \in 1..Len(p) : p[k] = g
+CompOrderOK == \A f \in F : Defined(f) =>
+    \A i, j \in 1..Len(comps[f]) : i < j =>
+        \/ Pos(Prec(f), comps[f][i]) < Pos(Prec(f), comps[f][j])
+        \/ \E k \in 1..i : comps[f][j] \in Rng(Prec(comps[f][k]))
+\* the trace mentions only flavors of the precedence list, each daemon at most once
+TraceOK == \A f \in F : Defined(f) =>
+    LET t == SendTrace(f) IN
+      /\ NoDup(t)
+      /\ \A i \in 1..Len(t) : \E g \in Rng(Prec(f)) :
+             \E d \in {"win", "wout", "before", "after", "primary"} : t[i] = Tag(g, d)
 =============================================================================
